@@ -920,6 +920,9 @@ func (in *Interp) rpow(x, e *Term) *Term {
 		// monotone in the exponent for equal base >= 1 (decreasing for a base in (0,1])
 		in.axiom(ts.Implies(ts.And(ts.Eq(x, x2), le(onec, x), le(e, e2)), le(y, y2)))
 		in.axiom(ts.Implies(ts.And(ts.Eq(x, x2), le(onec, x), le(e2, e)), le(y2, y)))
+		// strictly so for a base > 1
+		in.axiom(ts.Implies(ts.And(ts.Eq(x, x2), lt(onec, x), lt(e, e2)), lt(y, y2)))
+		in.axiom(ts.Implies(ts.And(ts.Eq(x, x2), lt(onec, x), lt(e2, e)), lt(y2, y)))
 		in.axiom(ts.Implies(ts.And(ts.Eq(x, x2), lt(zero, x), le(x, onec), le(e, e2)), le(y2, y)))
 		in.axiom(ts.Implies(ts.And(ts.Eq(x, x2), lt(zero, x), le(x, onec), le(e2, e)), le(y, y2)))
 		// monotone in the base for equal positive exponent
@@ -1016,6 +1019,21 @@ func (in *Interp) mathContract(f string, x *Term) *Term {
 			if strict {
 				in.axiom(ts.Implies(ts.And(dom, lt(x, x2)), lt(y, y2)))
 				in.axiom(ts.Implies(ts.And(dom, lt(x2, x)), lt(y2, y)))
+			}
+			if f == "log" || f == "log10" {
+				// concavity between two calls: f(a) <= f(b) + k (a-b)/b, k = 1 or 1/ln 10 rounded
+				// towards the sound side for the sign of a-b
+				kUp, kDn := 1.0, 1.0
+				if f == "log10" {
+					kUp, kDn = 0.43429449, 0.43429448
+				}
+				tang := func(a, fa, b, fb *Term) {
+					d := ts.FOp("fdiv", ts.FOp("fsub", a, b), b)
+					in.axiom(ts.Implies(ts.And(dom, le(b, a)), le(fa, ts.FOp("fadd", fb, ts.FOp("fmul", in.realConst(kUp), d)))))
+					in.axiom(ts.Implies(ts.And(dom, le(a, b)), le(fa, ts.FOp("fadd", fb, ts.FOp("fmul", in.realConst(kDn), d)))))
+				}
+				tang(x, y, x2, y2)
+				tang(x2, y2, x, y)
 			}
 		}
 	}
